@@ -58,7 +58,7 @@ def generate(rng, tier):
     # minimal witness of the known finding first (kept so that the finding is exhibited on every run)
     yield {"fam": "sens", "vals": [5, 6], "i": 0, "new": 5 - ((1 << 61) - 1), "path": "item", "other": [1, 2]}
     pool = [1, True, 1.0, -1, -2, 0, 2, None, "a", "b", 2.5]
-    paths = ["item", "slice", "mask", "ilist", "cell", "view", "attr", "row"]
+    paths = ["item", "slice", "mask", "ilist", "cell", "view", "attr", "row", "ilistrep", "ilistneg"]
     for n in (1, 2, 3):
         for i in range(n):
             for new in pool:
@@ -66,7 +66,7 @@ def generate(rng, tier):
                     base = [rng.choice([1, 0, 2, -1]) for _ in range(n)]
                     yield {"fam": "sens", "vals": base, "i": i, "new": new, "path": path, "other": [rng.choice([7, 8]) for _ in range(n)]}
     for _ in range(150 if tier == "quick" else 4000):
-        n = rng.randint(2, 6)
+        n = rng.randint(2, 9)
         kind = rng.choice(["int", "mixed", "str"])
         p = {"int": [1, 0, 2, -1, -2, 3], "mixed": pool, "str": ["a", "b", "c", None]}[kind]
         base = [rng.choice(p) for _ in range(n)]
@@ -346,6 +346,10 @@ def _sens(spec):
                     v[i:i + 1] = [new]
                 elif path == "mask":
                     v[[k == i for k in range(n)]] = new
+                elif path == "ilistrep":
+                    v[[i, i]] = [vals[(i + 1) % n], new]          # one position named twice: the last value stays
+                elif path == "ilistneg":
+                    v[[i - n, i]] = [vals[(i + 1) % n], new]      # ... once from the end, once from the front
                 else:
                     v[[i]] = [new]
                 if path == "view":
